@@ -49,6 +49,36 @@ SQL_UPDATED_ROWS = Template("SELECT ${count} as 'number of rows updated', 0 as '
 SQL_DELETED_ROWS = Template("SELECT ${count} as 'number of rows deleted'")
 
 
+_POSITIONAL_PLACEHOLDER_NAME = "fakesnow_positional_"
+
+
+def _name_positional_placeholders(expression: exp.Expression, params: Sequence[Any]) -> dict[str, Any] | None:
+    """Name the ? placeholders of the expression (in place) and return the parameters by name.
+
+    Positional parameters belong to the placeholders in the order of the statement text. Returns None, leaving the
+    expression as it was, when there are not as many placeholders as parameters.
+    """
+    placeholders = [p for p in expression.find_all(exp.Placeholder) if not p.args.get("this")]
+    if len(placeholders) != len(params):
+        return None
+    for i, p in enumerate(placeholders):
+        p.set("this", f"{_POSITIONAL_PLACEHOLDER_NAME}{i}")
+    # the tree is not searched in the order of the text, the generated statement has them in that order
+    text = expression.sql(dialect="snowflake", comments=False)
+    text_order = re.findall(rf":{_POSITIONAL_PLACEHOLDER_NAME}(\d+)\b", text)
+    if sorted(text_order, key=int) != [str(i) for i in range(len(placeholders))]:
+        for p in placeholders:
+            p.set("this", None)
+        return None
+    return {f"{_POSITIONAL_PLACEHOLDER_NAME}{i}": param for i, param in zip(text_order, params)}
+
+
+def _named_params_of(expression: exp.Expression, named_params: dict[str, Any]) -> dict[str, Any] | None:
+    """The named parameters that the expression contains (duckdb rejects any other)."""
+    names = {p.name for p in expression.find_all(exp.Placeholder)}
+    return {name: param for name, param in named_params.items() if name in names} or None
+
+
 class FakeSnowflakeCursor:
     def __init__(
         self,
@@ -152,6 +182,11 @@ class FakeSnowflakeCursor:
                 return self
 
             expression = parse_one(command, read="snowflake")
+            merge_params = None
+            if isinstance(expression, exp.Merge) and params and not isinstance(params, dict):
+                # each of the statements a MERGE is exploded into holds some of its ? placeholders, possibly more than
+                # once: name them, so that every statement can be given exactly the parameters it contains
+                merge_params = _name_positional_placeholders(expression, params)
             exploded = self._transform_explode(expression)
             transformed = self._transform(exploded[0])
             # A statement carried out in several steps (the statements a MERGE is exploded into, CREATE TABLE followed by
@@ -181,9 +216,14 @@ class FakeSnowflakeCursor:
                 try:
                     # the current database and schema are needed for the names the user wrote
                     statement = expression if len(exploded) > 1 or isinstance(expression, sqlglot.exp.Show) else None
-                    self._execute(transformed, params, statement)
-                    for exp in exploded[1:]:
-                        self._execute(self._transform(exp), params, statement)
+                    if merge_params is None:
+                        self._execute(transformed, params, statement)
+                    else:
+                        self._execute(transformed, _named_params_of(transformed, merge_params), statement)
+                    for step in exploded[1:]:
+                        step = self._transform(step)
+                        step_params = params if merge_params is None else _named_params_of(step, merge_params)
+                        self._execute(step, step_params, statement)
                     if own_transaction:
                         self._duck_conn.execute("COMMIT")
                 except Exception:
